@@ -8,7 +8,7 @@ DIVS = [1.0, 2.0, 3.0, 4.0, 6.0, 8.0, 12.0, math.pi]
 
 def mag_class(r: fb.Rng, zero_ok=True):
     k = r.below(12)
-    if k == 0 and zero_ok: return 0.0
+    if k == 0 and zero_ok: return r.choice([0.0, 0.0, 0.0, -0.0])        # -0.0 is a zero magnitude too (mag is a pub field)
     if k == 1: return 1.0
     if k == 2: return r.choice([1e-100, 1e100, 1e-10, 1e10])
     if k == 3: return float(r.below(9) + 1)
